@@ -62,9 +62,10 @@ THEOREMS += ["PyOak.C20." + t for t in [
     "legacy_match_heap_dirty_fails"]]
 PARTIAL = ["text level: proved for written paths with canonical decimal indices and any admissible white space "
            "(lparseXPath_render / lparseXPath_render_rel: lexer, step parser, transformer walk and matcher composed); "
-           "zero-padded numerals and WHICH malformed texts are rejected (beyond a class that is not a node class: "
-           "lparseXPath_unknown_class_rejected) have no theorem (correspondence only; the model's "
-           "lparseXPath collapses every failure to the one definition error)",
+           "the converse (parser soundness: an accepted text IS a written path, zero-padded numerals and empty steps included, "
+           "accepted by the legacy constructor iff by its successor) is proved in Props/C17Legacy.lean (C17.lparse_accepts_iff, "
+           "legacy_accepts_iff_successor, legacy_and_successor_same_path, listed under C17); the model's lparseXPath collapses "
+           "every failure to the one definition error",
            "heap link (legacy_match_heap, heap_dfs / heap_bfs / heap_gather, heap_calc_xpath and their *_run corollaries): proved "
            "for every state satisfying C18's Inv whose child graph is acyclic (C18.Ranked; Inv alone admits cycles: "
            "C18.cyclic_reachable) and whose parent slots are clean (ParentClean, an invariant of EVERY step whatever its "
